@@ -445,6 +445,71 @@ def run_cond_rng(ctx, i, rng):
     ctx.check(close(zp, zl), 'rng:draw_after_%s_differs_from_python' % kind, lambda: dict(case=desc, python=np.asarray(zp).tolist(), lifted=np.asarray(zl).tolist()))
 
 
+def run_nested_adoption(ctx, i, rng):
+  """Composition by attribute, two or three levels deep (a module that receives a sub-module as a dataclass attribute which in turn
+  receives one itself, nested Sequentials): the OUTER class is wrapped in nn.remat / nn.jit / identity nn.map_variables. The
+  variable tree produced by init has the plain structure and apply on the plain model's variables gives the plain output / updates."""
+  import jax
+  import jax.numpy as jnp
+  import flax.linen as nn
+  tr = ['remat', 'jit', 'map_variables'][i % 3]
+  shape = ['outer_mid_leaf', 'sequential_nested', 'outer_mid_mid_leaf', 'outer_leaf'][(i // 3) % 4]
+  desc = dict(transform=tr, composition=shape)
+  with ctx.case('nested_adoption', i, desc, nontrivial=shape != 'outer_leaf'):
+    class Leaf(nn.Module):
+      feats: int = 3
+
+      @nn.compact
+      def __call__(self, x):
+        n = self.variable('cnt', 'n', lambda: jnp.zeros((), jnp.float32))
+        n.value = n.value + 1.0
+        return nn.Dense(self.feats)(x)
+
+    class Mid(nn.Module):
+      leaf: nn.Module
+
+      @nn.compact
+      def __call__(self, x):
+        return nn.Dense(3)(nn.tanh(self.leaf(x)))
+
+    class Outer(nn.Module):
+      inner: nn.Module
+
+      @nn.compact
+      def __call__(self, x):
+        return self.inner(x) * 2.0
+
+    lift = {'remat': nn.remat, 'jit': nn.jit, 'map_variables': lambda c: nn.map_variables(c, 'params', mutable=True)}[tr]
+
+    def build(wrap):
+      if shape == 'sequential_nested':
+        cls = lift(nn.Sequential) if wrap else nn.Sequential
+        return cls([nn.Sequential([nn.Dense(3), nn.tanh, Leaf()]), nn.Sequential([Leaf(), nn.Dense(2)])])
+      cls = lift(Outer) if wrap else Outer
+      if shape == 'outer_leaf':
+        return cls(Leaf())
+      if shape == 'outer_mid_leaf':
+        return cls(Mid(Leaf()))
+      return cls(Mid(Mid(Leaf())))
+
+    x = jnp.asarray(np.random.default_rng(i).uniform(-1, 1, (2, 3)).astype(np.float32))
+    plain, lifted = build(False), build(True)
+    vp = plain.init(jax.random.key(i), x)
+    vl = lifted.init(jax.random.key(i), x)
+    ctx.op('nn.%s(module composed by attributes, depth >= 2)' % tr)
+    ctx.check(shapes(vp) == shapes(vl), 'init:tree_structure:nested_adopted_attributes',
+              lambda: dict(case=desc, plain=repr(shapes(vp))[:400], lifted=repr(shapes(vl))[:400]))
+    vp2 = jax.tree_util.tree_map(lambda a: a + 0.125, vp)
+    yp, up = plain.apply(vp2, x, mutable=['cnt'])
+    try:
+      yl, ul = lifted.apply(vp2, x, mutable=['cnt'])
+    except Exception as e:  # noqa: BLE001
+      ctx.check(False, 'apply:raises_on_plain_variables:nested_adopted_attributes', dict(case=desc, error=repr(e)[:300]))
+      return
+    ctx.check(close(yp, yl), 'apply:output:nested_adopted_attributes', lambda: dict(case=desc))
+    ctx.check(shapes(up) == shapes(ul) and close(up, ul), 'apply:updates:nested_adopted_attributes', lambda: dict(case=desc))
+
+
 def run_history(ctx, i, rng):
   """Stale-trace probe: one lifted instance is called repeatedly while mutable / variable structure change; a sibling instance with
   a different attribute must not reuse the trace."""
@@ -881,6 +946,8 @@ def run(ctx):
   ctx.event('kinds_covered', len(KINDS))
   for i in ctx.indices(24 if ctx.tier == 'quick' else 160, 'rng'):
     run_rng(ctx, i, ctx.rng('rng', i))
+  for i in ctx.indices(24 if ctx.tier == 'quick' else 48, 'nested_adoption'):
+    run_nested_adoption(ctx, i, ctx.rng('nested_adoption', i))
   for i in ctx.indices(48 if ctx.tier == 'quick' else 96, 'cond_rng'):
     run_cond_rng(ctx, i, ctx.rng('cond_rng', i))
   for i in ctx.indices(30 if ctx.tier == 'quick' else 300, 'history'):
